@@ -371,10 +371,16 @@ fn get_targets_root_only(
             target_manifest.canonicalize()?,
         )
     } else {
+        // The current package is the one whose manifest is nearest to the
+        // current directory, which may be a subdirectory of the package.
         let current_dir = env::current_dir()?.canonicalize()?;
+        let package_dir = current_dir
+            .ancestors()
+            .find(|dir| dir.join("Cargo.toml").is_file())
+            .unwrap_or(&current_dir);
         (
-            workspace_root_path == current_dir,
-            current_dir.join("Cargo.toml"),
+            workspace_root_path == package_dir,
+            package_dir.join("Cargo.toml"),
         )
     };
 
